@@ -29,6 +29,14 @@ REG = {
                 text="Generated programs x compilers x DWARF versions x binary kinds x subsets of the information-preserving abidw options; the ABIXML must compare equal to the binary both ways; exploration only.", note=_T1),
     "C04": dict(engine="progfuzz", technique="property-based testing (Hypothesis programs + metacharacter injection; independent expat parser and referential-integrity oracle)",
                 text="Generated programs with symbol names, SONAME and directories carrying XML metacharacters; abidw output parsed by an independent XML parser, every referenced type id defined exactly once, every referenced symbol listed, injected names recovered; exploration only.", note=_T1),
+    "C08": dict(engine="progfuzz", technique="property-based testing (Hypothesis program pairs x option sets x suppressions + malformed command lines; invariant: exit-status lattice and agreement with the parsed summary)",
+                text="Every generated comparison (16 option sets incl. section-selecting ones, suppressions) and malformed command lines of abidiff/abicompat/abipkgdiff: status is a combination of documented bits, 8=>4, 2=>1, and bit 4 <=> the summary lists a net change; exploration only.", note=_T1),
+    "C11": dict(engine="progfuzz", technique="property-based testing (Hypothesis program pairs compared in both argument orders; set-equality relation Removed(A,B)=Added(B,A), Changed(A,B)=Changed(B,A))",
+                text="Generated pairs incl. alias/binding/version changes and symbols without debug info, both orders; two recorded asymmetries of the tool are recognised entry by entry from the model and reported as known findings; exploration only.", note=_T1),
+    "C12": dict(engine="progfuzz", technique="property-based testing (differential: same pair with and without random subsets of presentation options)",
+                text="Generated pairs x three random subsets of the nine presentation options x four report modes; exit status and reported interface sets must equal the baseline run; exploration only.", note=_T1),
+    "C13": dict(engine="progfuzz", technique="property-based testing (differential: default reporter vs --leaf-changes-only --impacted-interfaces on generated pairs, with and without suppressions)",
+                text="Generated pairs with and without suppressions; leaf mode must set the same status bits and name every interface the default mode lists as changed; one recorded divergence (function suppressions) is a known finding; exploration only.", note=_T1),
     "C10": dict(engine="progfuzz", technique="property-based testing (Hypothesis multi-change program pairs; arithmetic invariant between parsed summary, section headers and listed entries; differential --stat)",
                 text="Generated pairs with several changes of mixed kinds (incl. versioned symbols without debug info) x report modes x generated suppressions; summary counts must equal section headers and listed entries, and --stat must print the same summary; exploration only.", note=_T1),
     "C05": dict(engine="progfuzz", technique="property-based testing (Hypothesis program pairs, model-derived expected verdict)",
